@@ -201,6 +201,8 @@ pub enum MutOp {
     SetBool(bool),
     SetU128(u128),
     SetBytes(Vec<u8>),
+    XorU8(u8),
+    SetU8(u8),
     /// XOR a leaf u128 with the probed global key of a party (dynamic, read in the same poll)
     XorDeltaOf(usize),
 }
@@ -277,6 +279,8 @@ pub fn apply(s: &Sch, x: &mut Val, m: &TreeMut, rng: &mut impl Rng) -> bool {
         (MutOp::XorU128(d), Val::U128(w)) => { *w ^= *d; true }
         (MutOp::SetBool(v), Val::Bool(b)) => { *b = *v as u8; true }
         (MutOp::SetU128(d), Val::U128(w)) => { *w = *d; true }
+        (MutOp::XorU8(d), Val::U8(b)) => { *b ^= *d; true }
+        (MutOp::SetU8(d), Val::U8(b)) => { *b = *d; true }
         (MutOp::SetBytes(d), Val::Bytes(b)) if d.len() == b.len() => { b.copy_from_slice(d); true }
         (MutOp::XorDeltaOf(p), Val::U128(w)) => match crate::hooks::delta_of(*p) { Some(d) => { *w ^= d; true } None => false },
         (MutOp::BoolTwo, Val::Bool(b)) => { *b = 2; true }
